@@ -941,7 +941,7 @@ func (in *Interp) callBuiltin(fn *ssa.Builtin, args []value) value {
 	case "recover":
 		return iface{}
 	}
-	panic(cut("builtin %s", fn.Name()))
+	panic(cut("builtin %s in %s", fn.Name(), in.where()))
 }
 
 // ---------------------------------------------------------------------------------------------
